@@ -42,11 +42,18 @@ func resolverTable(c *core.Ctx, fn *ssa.Function, maxProcs int) (rs rows, runs i
 			for i := 1; i <= n; i++ {
 				procs.Elems = append(procs.Elems, absint.NewTok(fmt.Sprintf("P%d", i), "processor"))
 			}
+			var regState *absint.Tok
+			regTried := false
 			t.field = func(ip *absint.Interp, obj *absint.Tok, name string, typ types.Type) absint.Value {
-				if sl, ok := typ.Underlying().(*types.Slice); ok && types.IsInterface(sl.Elem()) && obj == self {
+				if sl, ok := typ.Underlying().(*types.Slice); ok && types.IsInterface(sl.Elem()) && partOfState(obj, self) {
 					return dispatchList(c, t, name, procs)
 				}
-				if b, ok := typ.Underlying().(*types.Basic); ok && b.Kind() == types.Bool && obj == self {
+				if partOfState(obj, self) {
+					if v := policyField(c, t, procs, name, typ, &regState, &regTried); v != nil {
+						return v
+					}
+				}
+				if b, ok := typ.Underlying().(*types.Basic); ok && b.Kind() == types.Bool && partOfState(obj, self) {
 					return absint.Bool(n > 0)
 				}
 				return nil
